@@ -392,3 +392,9 @@ def check(repo, rep, tier):
     rule_field(repo, r4)
     r5 = rep.rule("R-C11-5", "schema agreement", floor=8)
     rule_schema(repo, r5)
+    r7 = rep.rule("R-C11-7", "records shared through tables are keyed by the value itself, never by hash(value)", floor=1)
+    from .hashkeys import rule_no_hash_keys
+    rule_no_hash_keys(repo, r7, ("pysnark.zkinterface.backend",))
+    r6 = rep.rule("R-C11-6", "the linear combinations written are the traced ones: backend algebra (shared with C13)", floor=4)
+    from .c13 import algebra as _alg
+    _alg(repo, r6, only=("pysnark.zkinterface.backend",))
